@@ -15,6 +15,7 @@ pub mod c09;
 pub mod c10;
 pub mod c11;
 pub mod c12;
+pub mod c13;
 pub mod c16;
 pub mod c18;
 
@@ -33,6 +34,7 @@ pub fn n_cases(ctx: &Ctx) -> u64 {
         "C10" => c10::n_cases(ctx),
         "C11" => c11::n_cases(ctx),
         "C12" => c12::n_cases(ctx),
+        "C13" => c13::n_cases(ctx),
         "C16" => c16::n_cases(ctx),
         "C18" => c18::n_cases(ctx),
         _ => 0,
@@ -54,6 +56,7 @@ pub fn run_case(ctx: &Ctx, idx: u64) -> Vec<CaseOut> {
         "C10" => c10::run_case(ctx, idx),
         "C11" => c11::run_case(ctx, idx),
         "C12" => c12::run_case(ctx, idx),
+        "C13" => c13::run_case(ctx, idx),
         "C16" => c16::run_case(ctx, idx),
         "C18" => c18::run_case(ctx, idx),
         _ => Vec::new(),
